@@ -27,7 +27,7 @@ def run_one(m):
             s = s.replace(e["old"], e["new"])
             open(p, "w").write(s)
         ev = os.path.join(tmp, "ev.json")
-        r = subprocess.run([os.path.join(VERIF, "bin/verifcheck"), "-repo", dst, "-verif", VERIF, "-prop", m["prop"],
+        r = subprocess.run([os.environ.get("VERIFCHECK_BIN", os.path.join(VERIF, "bin/verifcheck")), "-repo", dst, "-verif", VERIF, "-prop", m["prop"],
                             "-tier", "quick", "-evidence", ev], capture_output=True, text=True)
         out = r.stdout + r.stderr
         if r.returncode == 2:
@@ -56,7 +56,7 @@ def run_benign(job):
         r = subprocess.run(["patch", "-s", "-p1", "--fuzz=3", "-i", path], cwd=dst, capture_output=True, text=True)
         if r.returncode != 0:
             return (m, "ok", "patch no longer applies to the current tree (skipped)")
-        r = subprocess.run([os.path.join(VERIF, "bin/verifcheck"), "-repo", dst, "-verif", VERIF, "-prop", prop,
+        r = subprocess.run([os.environ.get("VERIFCHECK_BIN", os.path.join(VERIF, "bin/verifcheck")), "-repo", dst, "-verif", VERIF, "-prop", prop,
                             "-tier", "quick", "-evidence", os.path.join(tmp, "ev.json")], capture_output=True, text=True)
         out = r.stdout + r.stderr
         if r.returncode == 2:
